@@ -5,7 +5,7 @@ the scenario (print, re-parse creating further nested multi instances, every def
 runs under AddressSanitizer and must behave exactly like the same scenario without the poisoning.  Two contexts from
 one declaration, and two instances of one multi section, are driven by interleaved operations and compared with solo runs."""
 import re
-from common import Scn, hx, Opt, CFGF
+from common import Scn, hx, unhx, Opt, CFGF
 import gen
 
 VARIANT = 'asan'
@@ -60,6 +60,24 @@ def generate(rng, tier):
         yield Scn('inter%d' % n, head + inter + ['dump 0', 'dump 1', 'print 0 0', 'print 1 0'], {'class': 'two-contexts', 'group': 'i%d' % n, 'role': 'both', 'big': True})
         yield Scn('solo-a%d' % n, head + ctx(a, 0) + ['dump 0', 'print 0 0'], {'class': 'two-contexts', 'group': 'i%d' % n, 'role': 'a', 'big': False})
         yield Scn('solo-b%d' % n, head + ctx(b, 1) + ['dump 1', 'print 1 0'], {'class': 'two-contexts', 'group': 'i%d' % n, 'role': 'b', 'big': False})
+    # two contexts created from ONE declaration array with DIFFERENT flags: the second is what it would be alone
+    for fa, fb in ((F['NOCASE'], 0), (0, F['NOCASE']), (F['NOCASE'] | F['COMMENTS'], F['IGNORE_UNKNOWN'])):
+        opsb = ['parse_buf 1 ' + hx(b't abc { a = 1 }\nt ABC { a = 2 }\nT "x" { }\nS = "up"\n'), 'getopt 1 ' + hx(b't=ABC|a'), 'getopt 1 ' + hx(b't=abc|a'),
+                'addtsec 1 %s %s' % (hx(b't'), hx(b'Abc')), 'getopt 1 ' + hx(b'I'), 'rmtsec 1 %s %s' % (hx(b't'), hx(b'ABC'))]
+        opsa = ['parse_buf 0 ' + hx(b't abc { a = 5 }\nT ABC { A = 6 }\n'), 'getopt 0 ' + hx(b'T=ABC|A')]
+        n += 1
+        head = ['schema 0 ' + gen.schema_sexpr(SCHEMA), 'init 0 0 %d' % fa, 'init 1 0 %d' % fb, 'poison 0']
+        yield Scn('flags%d' % n, head + opsa + opsb + ['dump 0', 'dump 1', 'print 0 0', 'print 1 0'], {'class': 'two-contexts', 'group': 'f%d' % n, 'role': 'both', 'big': True})
+        yield Scn('flags-a%d' % n, head + opsa + ['dump 0', 'print 0 0'], {'class': 'two-contexts', 'group': 'f%d' % n, 'role': 'a', 'big': False})
+        # solo run of the second context: created alone from a fresh copy of the declarations
+        yield Scn('flags-b%d' % n, ['schema 0 ' + gen.schema_sexpr(SCHEMA), 'init 1 0 %d' % fb, 'poison 0'] + opsb + ['dump 1', 'print 1 0'],
+                  {'class': 'two-contexts', 'group': 'f%d' % n, 'role': 'b', 'big': False})
+    # a print callback installed through a path that crosses a multi section: instance 0 gets it, nobody else
+    for k, cmds in enumerate((['printfunc 0 %s 0' % hx(b'm|a')], ['printfunc 0 %s 0' % hx(b'm|n|q')], ['printfunc 0 %s 0' % hx(b't|a')])):
+        n += 1
+        lines = ['schema 0 ' + gen.schema_sexpr(SCHEMA), 'init 0 0 0', 'poison 0', 'parse_buf 0 ' + hx(b'm { a = 1 n x { q = 4 } }\nm { a = 2 n y { q = 5 } }\nt one { a = 7 }\nt two { a = 8 }\n')]
+        lines += cmds + ['parse_buf 0 ' + hx(b'm { a = 3 n z { q = 6 } }\nt three { a = 9 }\n'), 'addtsec 0 %s %s' % (hx(b't'), hx(b'four')), 'print 0 0']
+        yield Scn('pfpath%d' % n, lines, {'class': 'print-callback-by-path', 'group': 'pf%d' % n, 'role': 'single', 'big': True, 'pf': k})
     # two sibling instances of one multi section
     sib = [('setint 0 %s %d 0', b'a', 5), ('addlist 0 %s int %d', b'l', 8), ('setstr 0 %s %s 0', b's', None), ('addtsec 0 %s %s', b'n', None),
            ('setcomment 0 %s %s', b'a', None),
@@ -102,6 +120,14 @@ def oracle(scn, il):
         tr = il[-1] if il else 'no result'
         m = re.search(r'san=(\S+)', tr)
         return [('sanitizer:' + (m.group(1) if m else 'crash'), '%s: %s' % (scn.id, tr))]
+    if scn.meta['class'] == 'print-callback-by-path':
+        # the callback text is <NAME#INDEX>; exactly the first instance's option shows it
+        text = (unhx(il[-2].split('text=')[1].split(' ')[0]) or b'') if 'text=' in il[-2] else b''
+        leaf = [b'a', b'q', b'a'][scn.meta['pf']]
+        marks = len(re.findall(rb'<' + leaf + rb'#0>', text))
+        if marks != 1:
+            return [('print-callback-spread', '%s: a print callback installed by path shows %d times in the print-out (once expected: first instance only):\n%s' % (
+                scn.id, marks, text.decode('latin-1')[:900]))]
     # every section instance, whenever created, has the declared sub-options (name, kind, default) of its template
     out = []
     for l in reversed(il[:-1]):
